@@ -36,7 +36,7 @@ def shards(tier):
 
 def required_counters(tier):
     d = {"transform." + t: 50 for t in TRANSFORMS}
-    d.update({"eager.accept": 50, "eager.reject": 50, "value_independence": 100, "pytree_args": 20, "tracer_checks_observed": 500, "oracle_crosscheck": 100, "param_named_like_symbolic_name": 30, "question.cases": 50, "dict.cases": 50, "rechecked_after_warmup": 100})
+    d.update({"eager.accept": 50, "eager.reject": 50, "value_independence": 100, "pytree_args": 20, "tracer_checks_observed": 500, "oracle_crosscheck": 100, "param_named_like_symbolic_name": 30, "question.cases": 50, "dict.cases": 50, "rechecked_after_warmup": 100, "mutation.cases": 50, "typevar.mixed_tracer_concrete": 200})
     return d
 
 
@@ -378,6 +378,80 @@ def run_dict_case(rec, rng, rngkey):
                 rec.violation("trace-vs-eager", dict(case, transform=t), f"dict argument: {t} {v}, eager {eager} (same shapes and dtypes, entries reordered by jax)", mechanism=f"dict-trace-{v.split(':')[0]}-eager-{eager}")
 
 
+def run_mixed_case(rec, rng, rngkey):
+    """(a) a function that MUTATES a container argument so that it no longer fits (parameters are re-checked
+    together with the return value): refused eagerly and traced alike; (b) array types given by a TypeVar when
+    tracers and concrete arrays are mixed in one call (vmap with in_axes=None, grad w.r.t. one argument, a closed-
+    over argument under jit): a TypeVar stands for 'any array-like', not for one concrete class"""
+    import functools
+    import typing
+
+    import beartype
+    import jax
+    import jax.numpy as jnp
+    import typeguard
+
+    import jaxtyping
+    from jaxtyping import jaxtyped
+
+    def attempt(thunk):
+        try:
+            thunk()
+            return "accept"
+        except Exception as e:  # noqa
+            return classify(e)
+
+    n = rng.choice((2, 3))
+    m = rng.choice((n, n, n + 1, n + 2))
+    T = typing.TypeVar("T")
+    for cname, checker in (("typeguard", typeguard.typechecked), ("beartype", beartype.beartype)):
+        # (a) - typeguard only: beartype looks at ONE randomly chosen item of a list per call
+        ns = {"__name__": "jtv_c17_generated", "jnp": jnp, "L": list[jaxtyping.Float[jax.Array, "n"]], "Y": jaxtyping.Float[jax.Array, "m"], "R": jaxtyping.Float[jax.Array, ""]}
+        real.exec_src("def f(xs: L, y: Y) -> R:\n    xs.append(y)\n    return jnp.sum(y) + sum(jnp.sum(x) for x in xs)\n", ns)
+        f = jaxtyped(typechecker=checker)(ns["f"])
+        mk = lambda: ([jax.device_put(np.zeros((n,), dtype="float32")), jax.device_put(np.ones((n,), dtype="float32"))], jax.device_put(np.zeros((m,), dtype="float32")))
+        eager = attempt(lambda: f(*mk()))
+        want = "accept" if n == m else "reject"
+        case = {"mixed_case": "mutated-argument", "n": n, "m": m, "checker": cname, "rngkey": rngkey}
+        rec.count("mutation.cases")
+        rec.case(("mutation", n, m, cname), True)
+        if cname == "typeguard" and eager != want:
+            rec.violation("eager-vs-oracle", case, f"f appends y (size {m}) to xs: list of size-{n} arrays: eager {eager}, expected {want}", mechanism=f"mutation-eager-{eager}-expected-{want}")
+        for t, thunk in () if cname != "typeguard" else (("jit", lambda: jax.jit(f)(*mk())), ("eval_shape", lambda: jax.eval_shape(f, *mk())), ("grad", lambda: jax.grad(f, argnums=1)(*mk())), ("vmap", lambda: jax.vmap(f, in_axes=(None, 0))(mk()[0], jnp.stack([mk()[1]] * 2)))):
+            v = attempt(thunk)
+            rec.count("transform." + t)
+            if v != eager:
+                rec.violation("trace-vs-eager", dict(case, transform=t), f"function that mutates its list argument (n={n}, m={m}): {t} {v}, eager {eager}", mechanism=f"mutation-trace-{v.split(':')[0]}-eager-{eager}")
+        # (b)
+        ns = {"__name__": "jtv_c17_generated", "jnp": jnp, "X": jaxtyping.Float[T, "n"], "W": jaxtyping.Float[T, "n"], "R": jaxtyping.Float[T, "n"]}
+        real.exec_src("def g(x: X, w: W) -> R:\n    return x * w\n", ns)
+        g = jaxtyped(typechecker=checker)(ns["g"])
+        x, w = jax.device_put(np.ones((n,), dtype="float32")), jax.device_put(np.ones((m,), dtype="float32"))
+        eager = attempt(lambda: g(x, w))
+        case = {"mixed_case": "typevar", "n": n, "m": m, "checker": cname, "rngkey": rngkey}
+        rec.count("typevar.cases")
+        rec.case(("typevar", n, m, cname), True)
+        if eager != want:
+            rec.violation("eager-vs-oracle", case, f"g(x: Float[T,'n'], w: Float[T,'n']) with sizes {n},{m}: eager {eager}, expected {want}", mechanism=f"typevar-eager-{eager}-expected-{want}")
+        sc = lambda a, b: jnp.sum(g(a, b))
+        for t, thunk in (
+            ("jit", lambda: jax.jit(g)(x, w)),
+            ("jit-closed-over", lambda: jax.jit(lambda a: g(a, w))(x)),
+            ("vmap-partial", lambda: jax.vmap(g, in_axes=(0, None))(jnp.stack([x, x]), w)),
+            ("vmap-partial-2", lambda: jax.vmap(g, in_axes=(None, 0))(x, jnp.stack([w, w]))),
+            ("grad-x", lambda: jax.grad(sc, argnums=0)(x, w)),
+            ("grad-w", lambda: jax.grad(sc, argnums=1)(x, w)),
+            ("eval_shape", lambda: jax.eval_shape(g, x, w)),
+            ("jit-grad-closed", lambda: jax.jit(jax.grad(lambda a: sc(a, w)))(x)),
+            ("numpy-and-jax", lambda: jax.jit(g)(np.ones((n,), dtype="float32"), w)),
+        ):
+            v = attempt(thunk)
+            rec.count("transform." + t.split("-")[0])
+            rec.count("typevar.mixed_tracer_concrete")
+            if v != eager:
+                rec.violation("trace-vs-eager", dict(case, transform=t), f"TypeVar array types, sizes {n},{m}: {t} {v}, eager {eager}", mechanism=f"typevar-trace-{v.split(':')[0]}-eager-{eager}")
+
+
 def run_shard(rec, seed, shard, tier):
     import jax
 
@@ -390,6 +464,8 @@ def run_shard(rec, seed, shard, tier):
             run_question_case(rec, random.Random(key + "/q"), key + "/q")
         if k % 4 == 1:
             run_dict_case(rec, random.Random(key + "/d"), key + "/d")
+        if k % 4 == 2:
+            run_mixed_case(rec, random.Random(key + "/m"), key + "/m")
     r = random.Random(f"{seed}/C17/{shard['i']}/0")
     s = GS.gen_signature(r, max_params=3, p_ret=0.8)
     rec.sample({"sig": s, "transforms": TRANSFORMS})
@@ -398,7 +474,9 @@ def run_shard(rec, seed, shard, tier):
 def replay(rec, case):
     warnings.filterwarnings("ignore")
     install_spy()
-    if case.get("dict_case"):
+    if case.get("mixed_case"):
+        run_mixed_case(rec, random.Random(case["rngkey"]), case["rngkey"])
+    elif case.get("dict_case"):
         run_dict_case(rec, random.Random(case["rngkey"]), case["rngkey"])
     elif case.get("question_case"):
         run_question_case(rec, random.Random(case["rngkey"]), case["rngkey"])
